@@ -47,5 +47,5 @@ ASSUMPTIONS = ['PointCloudDecoder::Decode: the virtual stages (GetGeometryType, 
                'the Status enum values are copied into contracts/pcdec.c (STATUS_*); only their distinctness is used']
 TYPES_PRELUDE = ['core_types.h']
 J('DecodeHeader', 'h_pcd_header', ['C05', 'C02'], unwind=12, unwind_reason='5-byte memcpy of the magic in the vector-free reader model; no input-length loop; unwinding assertions on')
-J('Decode', 'h_pcd_decode', ['C05', 'C02', 'C06'], unwind=12, unwind_reason='5-byte memcpy of the magic; no input-length loop; unwinding assertions on')
+J('Decode', 'h_pcd_decode', ['C05', 'C02', 'C06'], native_api={'src': 'native/api_version_gate.cc', 'args': []}, unwind=12, unwind_reason='5-byte memcpy of the magic; no input-length loop; unwinding assertions on')
 J('fmt.supported_versions', 'h_fmt_supported_versions', ['C05'])
